@@ -1309,7 +1309,7 @@ fn enumerate(o: &Opts, rec: &mut Recorder) {
     let qtypes = [T_A, T_DS];
     let params: Vec<(Vec<u8>, u16)> = vec![(vec![], 0), (vec![0xab], 1)];
     let mut counter: u64 = 0;
-    let stride_z = if thorough { 3 } else { 37 };
+    let stride_z = if thorough { 2 } else { 37 };
     let record_every: u64 = if thorough { 11 } else { 3 };
     for (zi, names) in zones.iter().enumerate() {
         if zi % stride_z != (o.seed as usize) % stride_z {
